@@ -49,6 +49,11 @@ struct InnerDB {
     /// snapshot and writing it; otherwise an older snapshot can overwrite a
     /// newer one after both lifecycle operations have returned successfully.
     metadata_flush_lock: Arc<tokio::sync::Mutex<()>>,
+    /// Set when the in-memory collection registry was changed by a creation
+    /// and is not known to be durable yet; cleared by the `flush_metadata`
+    /// that persists it. While it is set, opening a collection persists the
+    /// database metadata as well (see `register_created_collection`).
+    registry_not_durable: AtomicBool,
     /// Map of collection names to collection instances
     collections: RwLock<BTreeMap<String, Arc<Collection>>>,
     /// Flag indicating whether the database is in read-only mode
@@ -206,6 +211,7 @@ impl AndaDB {
                 storage,
                 metadata: RwLock::new(metadata),
                 metadata_flush_lock: Arc::new(tokio::sync::Mutex::new(())),
+                registry_not_durable: AtomicBool::new(false),
                 collections: RwLock::new(BTreeMap::new()),
                 read_only: Arc::new(AtomicBool::new(false)),
                 dropping_collections: RwLock::new(BTreeSet::new()),
@@ -274,6 +280,7 @@ impl AndaDB {
                         storage,
                         metadata: RwLock::new(metadata),
                         metadata_flush_lock: Arc::new(tokio::sync::Mutex::new(())),
+                        registry_not_durable: AtomicBool::new(false),
                         collections: RwLock::new(BTreeMap::new()),
                         read_only: Arc::new(AtomicBool::new(false)),
                         dropping_collections: RwLock::new(BTreeSet::new()),
@@ -655,6 +662,14 @@ impl AndaDB {
                 .collections
                 .insert(collection.name().to_string());
         }
+        // Until `flush_metadata` has persisted the registration, whoever
+        // opens a collection persists the database metadata too: should the
+        // flushes below fail, a retry opens the (registered) collection, and
+        // without this its acknowledged flushes would land in a collection
+        // the durable database metadata does not list.
+        self.inner
+            .registry_not_durable
+            .store(true, Ordering::Release);
 
         let now = unix_ms();
         collection.flush(now).await?;
@@ -973,6 +988,9 @@ impl AndaDB {
         // reads, but must not persist it or let the callback mutate storage.
         if !self.inner.read_only.load(Ordering::Acquire) {
             collection.flush(now).await?;
+            if self.inner.registry_not_durable.load(Ordering::Acquire) {
+                self.flush_metadata(now).await?;
+            }
         }
         Ok(collection)
     }
@@ -1126,14 +1144,29 @@ impl AndaDB {
         // older waiter must observe changes made while it was queued instead
         // of writing its stale clone after the newer operation.
         let _flush_guard = self.inner.metadata_flush_lock.clone().lock_owned().await;
+        // Cleared before the snapshot is taken (a registration made afterwards
+        // sets it again) and restored when the write is not known to have
+        // happened.
+        let registry_was_not_durable = self
+            .inner
+            .registry_not_durable
+            .swap(false, Ordering::AcqRel);
         let metadata = self.metadata();
 
-        self.inner
-            .storage
-            .put(Self::METADATA_PATH, &metadata, None)
-            .await?;
-        self.inner.storage.store_metadata(0, now_ms).await?;
-        Ok(())
+        let written = async {
+            self.inner
+                .storage
+                .put(Self::METADATA_PATH, &metadata, None)
+                .await?;
+            self.inner.storage.store_metadata(0, now_ms).await
+        }
+        .await;
+        if written.is_err() && registry_was_not_durable {
+            self.inner
+                .registry_not_durable
+                .store(true, Ordering::Release);
+        }
+        written
     }
 
     /// Gets the value of a user-defined extension key.
